@@ -149,6 +149,8 @@ class Plan:
                 where.append(f"{names[p]}: ?Sized")
             else:
                 inline.setdefault(p, []).insert(0, "?Sized")
+        if m.patch.get("no_bounds") and not shadow:
+            inline, where = {}, []      # C14: a block of the wrong kind that has no dispatch bounds either (no family can be formed with it)
         decl = list(m.lifetimes)
         eliminated = {p for p, v in m.theta.items() if not params_of(v[1])}     # instantiated by a concrete type: not a parameter of this block
         for p in m.decl_order:
@@ -811,6 +813,57 @@ class PlanGen:
         plan.probes.append(("i32", self.default_targs(plan)))
         self.finish_world(plan)
 
+    def shifted_nested_plan(self):
+        """directed shape (seeded change C01d): a family over 2-3 positions keyed on a LATER position, plus nested members whose
+        header fixes an EARLIER position to a concrete type: their canonical parameter numbers are shifted against the family's
+        (`(T, U)` / `(u8, U)` is `(_0, _1)` / `(u8, _0)`), so the matcher must bind `_1 -> _0` (not report an identity) and the
+        nested member's bound on its `_0` must be re-expressed as the family's key on `_1`. Rows are pairwise distinct: no overlap."""
+        r = self.r
+        plan = Plan()
+        plan.dtraits = [DTrait("D0")] + ([DTrait("D1", assocs=("G", "H"))] if r.random() < 0.3 else [])
+        plan.items = [("const", "NAME", False)] + ([("fn", "tag", False)] if r.random() < 0.5 else []) + ([("fn", "dtag", True)] if r.random() < 0.3 else [])
+        n = self.pick([2, 2, 3])
+        tps = [("tp", i) for i in range(n)]
+        if n == 2:
+            hdr = self.pick([("tuple", tps), ("ctor", "W2", [("aty", tps[0]), ("aty", tps[1])])])
+        else:
+            hdr = self.pick([("tuple", tps), ("ctor", "W2", [("aty", tps[0]), ("aty", ("tuple", tps[1:]))])])
+        targs = []
+        if n == 2 and r.random() < 0.3:
+            # the earlier position is a trait argument: `Kita<U> for T` next to `Kita<u8> for T`
+            plan.trait_generics = [("ty", "P0", "", None)]
+            hdr, targs = tps[1], [tps[0]]
+        kp = r.randrange(1, n)
+        dt = r.randrange(len(plan.dtraits))
+        keys = [Key(("tp", kp), dt, [], self.pick(plan.dtraits[dt].assocs))]
+        marks = r.sample(MARKERS, min(4, len(MARKERS)))
+        members = []
+        for i in range(self.pick([1, 2])):
+            m = Member({}, [leaf(marks[i])], n)
+            m.names = self.names(n)
+            m.inline = {0: r.random() < 0.6}
+            m.decl_order = list(range(n))
+            if r.random() < 0.4:
+                r.shuffle(m.decl_order)
+            members.append(m)
+        for i in range(self.pick([1, 1, 2])):
+            fixed = r.randrange(0, kp)
+            m = Member({fixed: ("ty", leaf(self.pick(["u8", "u16", "String"])))}, [leaf(marks[2 + i])], n)
+            m.names = self.names(n)
+            m.inline = {0: r.random() < 0.6}
+            members.append(m)
+            if len(marks) < 4:
+                break
+        r.shuffle(members)
+        has_dflt = [nm for _, nm, d in plan.items if d]
+        for m in members:
+            m.overrides = {nm for nm in has_dflt if r.random() < 0.5}
+        plan.families = [Family(hdr, targs, n, keys, members)]
+        plan.notes["directed"] = "nested member with shifted canonical numbers"
+        plan.notes["keep_plain"] = True
+        self.populate(plan)
+        return plan
+
     # ------------------------------------------------------------------ overlapping pairs (C04)
     def shifted_overlap(self):
         """C04: family (T0, T1, T2) dispatching on one position, plus a nested block whose header fixes that position to a
@@ -1320,7 +1373,7 @@ class PlanGen:
 
     def unsized_plan(self, d7=None):
         r = self.r
-        if d7 is None and r.random() < 0.15:
+        if d7 is not True and r.random() < 0.15:
             return self.unsized_diagonal_plan()
         plan = Plan()
         plan.dtraits = [DTrait("D0"), DTrait("D1", assocs=("G", "H"))][: self.pick([1, 2])]
